@@ -20,8 +20,6 @@ APPEND_EXCEPTIONS = {
         "order is built in this function from numeric quantiles + [inf]; the sentinel is a string",
     ("AutoCarver/discretizers/utils/type_discretizers.py::fit_feature", "str_nan"):
         "values_order is built in this function from the raw non-missing values (assumption: raw data does not contain the sentinel)",
-    ("ChainedDiscretizer._prepare_data", "unknown_value"):
-        "unknown_values is filtered with `value not in self.known_values and value != self.str_nan`, the member set __init__ establishes",
 }
 
 
@@ -155,15 +153,6 @@ def _exception_still_valid(fi: FunctionInfo, call: ast.Call, recv: str, val: str
             for n in walk_no_nested(src_fn)
         )
         return fresh and not cfg_loops(fi, call)
-    if q == "ChainedDiscretizer._prepare_data":
-        # the loop iterates unknown_values whose definition filters on known_values and str_nan
-        for n in walk_no_nested(src_fn):
-            if isinstance(n, ast.Assign) and isinstance(n.targets[0], ast.Name) and n.targets[0].id == "unknown_values":
-                txt = canon_unparse(n.value)
-                if "notinself.known_values" in txt and ("self.str_nan!=value" in txt or "!=self.str_nan" in txt):
-                    loops = cfg_loops(fi, call)
-                    return any(unparse(l.iter) == "unknown_values" and unparse(l.target) == val for l in loops if isinstance(l, ast.For))
-        return False
     return True
 
 
